@@ -10,6 +10,8 @@ import WV.Model.C13
 import WV.Model.C15
 import WV.Model.C01
 import WV.Model.C04
+import WV.Model.C02
+import WV.Model.C03
 
 /-! Line-protocol driver over the executable models.  First stdin line names the model
     (`C12`, …); every following line is one operation; one output line per operation. -/
@@ -34,6 +36,8 @@ def dispatch (which : String) (lines : List String) : List String :=
   | "C15" => WV.C15.driver lines
   | "C01" => WV.C01.driver lines
   | "C04" => WV.C04.driver lines
+  | "C02" => WV.C02.driver lines
+  | "C03" => WV.C03.driver lines
   | _ => ["unknown-model " ++ which]
 
 def main : IO Unit := do
